@@ -9,11 +9,15 @@ import (
 	"encoding/pem"
 	"fmt"
 	mrand "math/rand"
+	"net/http/httptest"
+	"sort"
 	"strings"
 	"time"
 
+	"github.com/beevik/etree"
 	"github.com/crewjam/saml"
 	"github.com/crewjam/saml/xmlenc"
+	"html"
 
 	"verifharness/internal/fix"
 )
@@ -38,18 +42,57 @@ func wrap64(s string) string {
 	return sb.String()
 }
 
+// wsVariants: the certificate text as real metadata files have it
+func wsVariants(b64 string) map[string]string {
+	wrapN := func(n int, sep string) string {
+		var sb strings.Builder
+		for i := 0; i < len(b64); i += n {
+			j := i + n
+			if j > len(b64) {
+				j = len(b64)
+			}
+			sb.WriteString(b64[i:j] + sep)
+		}
+		return sb.String()
+	}
+	return map[string]string{
+		"wrap64-lf":            "\n" + wrapN(64, "\n"),
+		"wrap64-indented":      "\n            " + wrapN(64, "\n            "),
+		"wrap76-crlf":          "\r\n" + wrapN(76, "\r\n"),
+		"wrap76-crlf-indent":   "\r\n\t\t" + wrapN(76, "\r\n\t\t"),
+		"wrap64-tab":           "\t" + wrapN(64, "\n\t"),
+		"lead-trail-space":     "   " + b64 + "   ",
+		"interior-space":       b64[:40] + " " + b64[40:100] + "  " + b64[100:],
+		"interior-tab":         b64[:33] + "\t" + b64[33:],
+		"formfeed":             b64[:20] + "\f" + b64[20:],
+		"vertical-tab(not-ws)": b64[:20] + "\v" + b64[20:],
+		"nbsp(not-ws)":         b64[:20] + "\u00a0" + b64[20:],
+	}
+}
+
 func c08CertChoices() []certChoice {
 	b := fix.CertB64("rsa_b")
 	c := fix.CertB64("rsa_c")
 	ec := fix.CertB64("ec_256")
 	der, _ := base64.StdEncoding.DecodeString(b)
 	pemStr := string(pem.EncodeToMemory(&pem.Block{Type: "CERTIFICATE", Bytes: der}))
-	return []certChoice{
+	var ws []certChoice
+	for name, v := range wsVariants(b) {
+		ws = append(ws, certChoice{"rsa-b:" + name, sptr(v)})
+	}
+	for name, v := range wsVariants(c) {
+		if strings.HasPrefix(name, "wrap") {
+			ws = append(ws, certChoice{"rsa-c:" + name, sptr(v)})
+		}
+	}
+	sort.Slice(ws, func(i, j int) bool { return ws[i].class < ws[j].class })
+	base := []certChoice{
 		{"rsa-b", sptr(b)}, {"rsa-c", sptr(c)}, {"rsa-b-wrapped", sptr("\n" + wrap64(b) + "  ")}, {"rsa-c-tabs", sptr("\t" + c[:40] + " \r\n" + c[40:])},
 		{"ec", sptr(ec)}, {"empty", sptr("")}, {"whitespace", sptr(" \n\t ")}, {"bad-base64", sptr("!!!not base64!!!")},
 		{"bad-der", sptr(base64.StdEncoding.EncodeToString([]byte("this is not a certificate")))}, {"truncated", sptr(b[:len(b)/2&^3])},
 		{"pem-armoured", sptr(pemStr)}, {"none", nil}, {"idp-own-cert", sptr(fix.CertB64("rsa_a"))},
 	}
+	return append(base, ws...)
 }
 
 var c08Uses = []string{"encryption", "signing", "", "other", "Encryption", "encryption "}
@@ -100,7 +143,7 @@ func scanMarkers(hay []byte, markers []string) []string {
 	return found
 }
 
-func c08One(c *Ctx, g *Group, kds []mKeyDesc, layout string, idx int) {
+func c08One(c *Ctx, g, gsteps *Group, kds []mKeyDesc, layout string, idx int) {
 	r := c.Rng
 	in, key := genInput06(r, func(*mrand.Rand) []mKeyDesc { return kds })
 	// every descriptor of this metadata gets the layout; the routed one decides
@@ -198,6 +241,136 @@ func c08One(c *Ctx, g *Group, kds []mKeyDesc, layout string, idx int) {
 		ImplSpecOK: specOK,
 		Trivial:    len(kds) == 0,
 	})
+	if in.wire != nil && gsteps != nil {
+		c08Steps(c, gsteps, in, kds, layout, markers, key)
+	}
+}
+
+var c08StepSeqs = [][]int{{0, 1, 2}, {0, 2}, {1, 2}, {2, 2}, {0, 0, 1}, {1, 1, 2}, {2, 1, 0}, {0}, {2}}
+
+// c08Steps drives the step API the way a caller that only logs errors would:
+// MakeAssertion, then the given sequence of MakeAssertionEl / MakeResponse /
+// WriteResponse calls on the same request object, each error ignored. After an
+// error nothing of the session may be left in the request object or emitted.
+func c08Steps(c *Ctx, g *Group, in c06Input, kds []mKeyDesc, layout string, markers []string, baseKey map[string]string) {
+	steps := pick(c.Rng, c08StepSeqs)
+	reg := &stubRegistry{entries: []mRegEntry{{ID: in.regKey, Kind: "found", MD: in.md}}}
+	sess := in.sess.toSAML()
+	idp := newIDP(in.cfg, reg, sess)
+	sr, er := newStream(c.Rng, 160), newStream(c.Rng, 512)
+	oldS, oldE := saml.RandReader, xmlenc.RandReader
+	saml.RandReader, xmlenc.RandReader = sr, er
+	defer func() { saml.RandReader, xmlenc.RandReader = oldS, oldE }()
+	var results []int
+	var emitted [][]byte
+	var problems []string
+	aelSet, respSet, started := false, false, false
+	withGlobals(in.cfg, in.now, func() {
+		hr := httpRequest(in.method, in.cfg.SSOURL, encodeFor(in.method, []byte(in.wire.xml())), in.relay)
+		hr.RemoteAddr = in.addr
+		req, err := saml.NewIdpAuthnRequest(idp, hr)
+		if err == nil {
+			err = req.Validate()
+		}
+		if err == nil {
+			saml.TimeNow = func() time.Time { return in.tnow }
+			err = (saml.DefaultAssertionMaker{}).MakeAssertion(req, sess)
+		}
+		if err != nil {
+			return
+		}
+		started = true
+		for _, st := range steps {
+			res := func() (r int) {
+				defer func() {
+					if p := recover(); p != nil {
+						r = 2
+						problems = append(problems, fmt.Sprintf("panic in step %d: %v", st, p))
+					}
+				}()
+				var e error
+				switch st {
+				case 0:
+					e = req.MakeAssertionEl()
+				case 1:
+					e = req.MakeResponse()
+				default:
+					rec := httptest.NewRecorder()
+					e = req.WriteResponse(rec)
+					body := rec.Body.Bytes()
+					emitted = append(emitted, body)
+					if m := respValRe.FindSubmatch(body); m != nil {
+						if x, err := base64.StdEncoding.DecodeString(html.UnescapeString(string(m[1]))); err == nil {
+							emitted = append(emitted, x)
+						}
+					}
+				}
+				if e != nil {
+					return 1
+				}
+				return 0
+			}()
+			results = append(results, res)
+		}
+		aelSet, respSet = req.AssertionEl != nil, req.ResponseEl != nil
+		for _, el := range []*etree.Element{req.AssertionEl, req.ResponseEl} {
+			if el != nil {
+				doc := etree.NewDocument()
+				doc.SetRoot(el.Copy())
+				if b, err := doc.WriteToBytes(); err == nil {
+					emitted = append(emitted, b)
+				}
+			}
+		}
+	})
+	if !started {
+		return
+	}
+	anyErr := false
+	for _, r := range results {
+		if r != 0 {
+			anyErr = true
+		}
+	}
+	var leaked []string
+	for _, b := range emitted {
+		leaked = append(leaked, scanMarkers(b, markers)...)
+	}
+	if anyErr {
+		if aelSet {
+			problems = append(problems, "req.AssertionEl is set after a failed step")
+		}
+		if respSet {
+			problems = append(problems, "req.ResponseEl is set after a failed step")
+		}
+		if len(leaked) > 0 {
+			problems = append(problems, fmt.Sprintf("session markers in the request object or in emitted bytes after a failed step: %v", leaked[:1]))
+		}
+	}
+	var specOK *bool
+	if len(problems) > 0 {
+		specOK = Bptr(false)
+	}
+	key := map[string]string{"class": "step-api", "layout": baseKey["layout"], "layout_class": baseKey["layout_class"], "steps": fmt.Sprint(steps), "any_error": fmt.Sprint(anyErr)}
+	c.Count("steps/" + fmt.Sprint(steps))
+	c.Count("steps_any_error/" + fmt.Sprint(anyErr))
+	rnd := mRands{Saml: sr.stream[:48], Enc: er.stream[:96], WrapN: 20}
+	zs := func(l []int) string {
+		var it []string
+		for _, x := range l {
+			it = append(it, fmt.Sprint(x))
+		}
+		return "[" + strings.Join(it, "; ") + "]"
+	}
+	c.Add(g, &Case{
+		Key:   key,
+		Input: map[string]any{"key_descriptors": kds, "layout": layout, "steps (0 MakeAssertionEl, 1 MakeResponse, 2 WriteResponse)": steps, "request_xml": in.wire.xml(), "session": in.sess},
+		Obs:   map[string]any{"results (0 ok, 1 error, 2 panic)": results, "AssertionEl_set": aelSet, "ResponseEl_set": respSet, "problems": problems},
+		Term: fmt.Sprintf("{| s8_base := {| c6_cfg := %s; c6_md := %s; c6_certs := %s; c6_rq := %s; c6_sess := %s; c6_now := %s; c6_tnow := %s; c6_addr := %s; c6_relay := %s; c6_rnd := %s; c6_obs := O6Err |}; s8_steps := %s; s8_results := %s; s8_ael_set := %s; s8_resp_set := %s |}",
+			in.cfg.term(), in.md.term(), certTable(in.md), rqTerm(in.wire, in.issue), in.sess.term(), emitTime(in.now), emitTime(in.tnow), emitStr(in.addr), emitStr(in.relay),
+			rnd.term(), zs(steps), zs(results), emitBool(aelSet), emitBool(respSet)),
+		ImplSpecOK: specOK,
+	})
 }
 
 func drawSizes(d [][]byte) []int {
@@ -252,8 +425,12 @@ func runC08(c *Ctx) {
 	gf := c.Group("fresh", nil, "bool", "check_bools")
 	choices := c08CertChoices()
 	i := 0
+	var gst []*Group
+	for k := 0; k < 4; k++ {
+		gst = append(gst, c.Group(fmt.Sprintf("steps%d", k), []string{"IdPModel"}, "c08scase", "check_c08s"))
+	}
 	add := func(kds []mKeyDesc, layout string) {
-		c08One(c, gs[i%len(gs)], kds, layout, i)
+		c08One(c, gs[i%len(gs)], gst[i%len(gst)], kds, layout, i)
 		i++
 	}
 	// systematic: every single descriptor (use x certificate), then every ordered pair of a decisive first with a usable second
